@@ -1,5 +1,6 @@
 (* C12 — CPU-time and off-CPU accounting conserve time for every switch/sample history. *)
 From SV Require Import Model.ContextSwitch Spec.ContextSwitchSpec Proofs.ContextSwitchProofs Tie.C12.
+From SV Require Import Generated.ContextSwitchGen Proofs.ContextSwitchGenProofs.
 From Coq Require Import Lia.
 Open Scope N_scope.
 
@@ -46,7 +47,27 @@ Theorem C12_checker_accepts_model :
     chk I evs os (on_acc s') (off_acc s') = true.
 Proof. exact checker_accepts_model. Qed.
 
+(* The tie by translation: g_run chains the Gallina functions that tools/xlate_cs.py regenerates from samply/src/shared/context_switch.rs on
+   every run (handle_switch_in, handle_on_cpu_sample, handle_switch_out, maybe_consume_off_cpu, consume_cpu_delta, statement by statement, with
+   the places where a debug build would panic raising `bad`).  For every interval I > 0 and every event sequence they compute exactly what the
+   hand-written model computes - so the theorems above are theorems about the translation of the source as it is now. *)
+Theorem C12_translation_agrees :
+  forall (I : N) (evs : list ev), 0 < I -> forall s : cs, g_run I s evs = run I s evs.
+Proof. exact g_run_eq. Qed.
+
+Theorem C12_conservation_of_translation :
+  forall (I : N) (evs : list ev) (s' : cs) (os : list out),
+    0 < I -> nondecreasing_from 0 (timed evs) -> g_run I cs_init evs = (s', os) ->
+    bad s' = false /\
+    sum_deltas os + on_acc s' = running (timed evs) /\
+    sum_counts os * I + off_acc s' + pending_sleep (timed evs) = sleeping (timed evs) /\
+    off_acc s' < I /\
+    groups_ok I 0 os.
+Proof. intros I evs s' os HI Hn Hr. rewrite (g_run_eq I evs HI) in Hr. exact (conservation I evs s' os HI Hn Hr). Qed.
+
 Print Assumptions C12_conservation.
+Print Assumptions C12_translation_agrees.
+Print Assumptions C12_conservation_of_translation.
 Print Assumptions C12_group_inside_sleep.
 Print Assumptions C12_no_double_count.
 Print Assumptions C12_checker_accepts_model.
@@ -61,4 +82,7 @@ Example ex_outputs :
   snd (run 10 cs_init ex_evs) =
   [ONothing; ONothing; ONothing; ONothing; ODelta 10; ONothing; ONothing; ONothing; ONothing; ONothing;
    OGroup 24 24 1; ODelta 4; ONothing; OGroup 37 47 2; ODelta 3; ONothing; ODelta 3; ONothing; ODelta 10].
+Proof. vm_compute. reflexivity. Qed.
+
+Example ex_outputs_translation : snd (g_run 10 cs_init ex_evs) = snd (run 10 cs_init ex_evs).
 Proof. vm_compute. reflexivity. Qed.
